@@ -176,6 +176,12 @@ pub fn parse_unit(text: &str) -> Unit {
             "@use" => unit.uses.push(rest.clone()),
             "@prelude" => unit.prelude.extend(words.clone()),
             "@spec" => unit.spec.extend(words.clone()),
+            // `@lemmas_of UNIT file..`: the lemmas of these spec files are proved in UNIT; here only their statements are used
+            "@lemmas_of" => {
+                for f in words.iter().skip(1) {
+                    unit.spec.push(format!("{}::{}", words[0], f));
+                }
+            }
             "@item" => {
                 in_method = false;
                 ctx = Ctx::None;
